@@ -191,6 +191,26 @@ def run(ctx):
                 got = 'raise:' + type(e).__name__
             if got != n:
                 ctx.violation('an amount handed to an output as text / Value object is not that many smallest units', {'op': 'amount-into-output', 'form': form_, 'amount': txt, 'observed': got, 'expected': n})
+    # ---- an amount computed by the caller in floating point (coins * 1e8) that is not a whole number is refused - or, if a tolerance is
+    # applied, becomes the amount that was meant, never one unit less
+    tried = 0
+    for _ in range(120000 if T else 30000):
+        n = rng.randrange(1, 21 * 10 ** 12)
+        f = float('%d.%08d' % (n // 10 ** 8, n % 10 ** 8)) * 1e8
+        if f.is_integer():
+            continue
+        tried += 1
+        ctx.evals += 1
+        try:
+            t_ = Transaction()
+            t_.add_output(f, EXT_ADDR)
+            got = t_.outputs[0].value
+        except Exception:
+            got = None
+        if got is not None and got != n:
+            ctx.violation('a non-integral float amount is accepted by add_output and becomes another number of smallest units', {'op': 'amount-into-output', 'float': repr(f), 'observed': got, 'expected': n})
+            break
+    ctx.count('float-amounts-not-integral', tried)
     # ---- the same over the whole supply range: exact decimal text of n satoshi in every unit -------------------------------
     from decimal import Decimal
     codes = {NETWORK_DEFINITIONS[n]['currency_code'].upper() for n in NETWORK_DEFINITIONS}
